@@ -43,18 +43,39 @@
 (*   WriteBeforeUnlock  content written before the final permission        *)
 (*   LockOnLast         last deregistration locks the registry             *)
 (*   RegisterInInit     creator registers its node before finalisation     *)
+(*   ReleaseStaticLate  the creator keeps the ownership of the static      *)
+(*                      config until the END of create(): every later step *)
+(*                      that fails removes it again (FALSE = released      *)
+(*                      right after unlock: a failing step leaves a zombie)*)
+(*   TagOwnedUntilDone  create()/open() own the service tag until they     *)
+(*                      succeeded: every failing step removes it again     *)
+(*   BoundedDynWait     open(): the wait for a dynamic config that does    *)
+(*                      not exist / is not finalised is bounded by the     *)
+(*                      creation timeout (FALSE = retried at once, for     *)
+(*                      ever when the creator died)                        *)
 (* (The static config is removed last; a different removal order matters   *)
 (* for crash recovery - C04 - and is not observable by C06.)               *)
+(*                                                                         *)
+(* FAILING ENVIRONMENT: at most MaxFaults times in a behaviour the system  *)
+(* call of a step of create / open fails (CTagFail ... ODynFail); the      *)
+(* call then takes the code's error path: whatever the call still OWNS is  *)
+(* removed again and a documented environment error is returned, which the *)
+(* property layer accepts only WITHOUT effect (RetEnv).                    *)
+(* CRASHES: at most MaxCrashes times a process dies at an arbitrary point  *)
+(* (Crash); nothing is cleaned up (dead-node cleanup is C04).  The calls   *)
+(* of the surviving processes must still terminate (Termination) and be    *)
+(* explained by the property layer.                                        *)
 (***************************************************************************)
 EXTENDS ServiceAbs, TLC
 
 CONSTANTS MaxOps, Budget, MaxInc, HasResources, UseOoc,
-          WriteBeforeUnlock, LockOnLast, RegisterInInit
+          WriteBeforeUnlock, LockOnLast, RegisterInInit,
+          ReleaseStaticLate, TagOwnedUntilDone, BoundedDynWait, MaxFaults, MaxCrashes
 
-VARIABLES sfile, dyn, res, tags, nextInc, pc, loc, incc, bad
+VARIABLES sfile, dyn, res, tags, nextInc, pc, loc, incc, bad, nf, nc
 
-ivars == <<sfile, dyn, res, tags, nextInc, pc, loc, incc, bad>>
-lvars == <<svc, pend, ek, gh, sfile, dyn, res, tags, nextInc, pc, loc, incc, bad>>
+ivars == <<sfile, dyn, res, tags, nextInc, pc, loc, incc, bad, nf, nc>>
+lvars == <<svc, pend, ek, gh, sfile, dyn, res, tags, nextInc, pc, loc, incc, bad, nf, nc>>
 
 \* ---- the run configuration (blackboard-shaped records are the smallest) -------------------
 BB(mr, mn, at) == [kty |-> "u64", ksz |-> 8, kal |-> 8, mr |-> mr, mn |-> mn, at |-> at]
@@ -66,7 +87,7 @@ OpenerCfgs == {1, 3}
 
 NoDyn == [st |-> "none", reg |-> {}, locked |-> FALSE]
 LocIdle == [op |-> "-", c |-> 0, ph |-> "-", rid |-> 0, rc |-> 0, hid |-> 0, hc |-> 0,
-            budget |-> 0, r |-> "-", ops |-> 0]
+            budget |-> 0, r |-> "-", ops |-> 0, flt |-> 0]
 
 LInit ==
     /\ AInit(1)
@@ -79,8 +100,11 @@ LInit ==
     /\ loc = [p \in Threads |-> LocIdle]
     /\ incc = [i \in 1..MaxInc |-> 0]
     /\ bad = FALSE
+    /\ nf = 0 /\ nc = 0
 
 Slot(p) == p + 1
+\* the error paths remove the service tag again as long as the call owns it
+DropTag(p) == IF TagOwnedUntilDone THEN tags \ {p} ELSE tags
 Goto(p, l) == pc' = [pc EXCEPT ![p] = l]
 KeepShadow == UNCHANGED <<svc, pend, ek, gh>>
 
@@ -103,9 +127,9 @@ Start(p, op, c) ==
     /\ Call(p, op, p, c, Slot(p))
     /\ loc' = [loc EXCEPT ![p].op = op, ![p].c = c, ![p].budget = Budget, ![p].r = "-",
                           ![p].ph = IF op = "create" THEN "create" ELSE IF op = "drop" THEN "-" ELSE "open",
-                          ![p].ops = @ + 1]
+                          ![p].ops = @ + 1, ![p].flt = 0]
     /\ Goto(p, CASE op = "create" -> "c_avail" [] op = "drop" -> "d_tag" [] OTHER -> "o_avail")
-    /\ UNCHANGED <<sfile, dyn, res, tags, nextInc, incc, bad>>
+    /\ UNCHANGED <<sfile, dyn, res, tags, nextInc, incc, bad, nf, nc>>
 
 StartAny(p) ==
     \/ loc[p].hid = 0 /\ \E c \in CreatorCfgs : Start(p, "create", c)
@@ -133,7 +157,7 @@ FailWith(p, e) ==
 \* ---- create ------------------------------------------------------------------------------------
 CAvail(p) ==
     /\ pc[p] = "c_avail"
-    /\ UNCHANGED <<sfile, dyn, res, tags, nextInc, incc, bad>>
+    /\ UNCHANGED <<sfile, dyn, res, tags, nextInc, incc, bad, nf, nc>>
     /\ CASE sfile.st = "none"   -> Goto(p, "c_tag") /\ UNCHANGED loc /\ KeepShadow
          [] sfile.st = "locked" -> FailWith(p, "AlreadyExists")      \* HangsInCreation -> AlreadyExists
          [] sfile.st = "ready"  -> IF sfile.c = 0
@@ -144,12 +168,13 @@ CTag(p) ==
     /\ pc[p] = "c_tag"
     /\ tags' = tags \cup {p}
     /\ Goto(p, "c_lock")
-    /\ UNCHANGED <<sfile, dyn, res, nextInc, loc, incc, bad>> /\ KeepShadow
+    /\ UNCHANGED <<sfile, dyn, res, nextInc, loc, incc, bad, nf, nc>> /\ KeepShadow
 
-\* StaticStorage::create_locked - exclusive creation decides the creator (linearization point)
+\* StaticStorage::create_locked - exclusive creation decides the creator (linearization point; a later step
+\* that fails WITHDRAWS the creation again, see EnvError)
 CLock(p) ==
     /\ pc[p] = "c_lock"
-    /\ UNCHANGED <<dyn, res, bad>>
+    /\ UNCHANGED <<dyn, res, bad, nf, nc>>
     /\ IF sfile.st = "none" /\ nextInc <= MaxInc
        THEN /\ sfile' = [st |-> "locked", id |-> nextInc, c |-> 0]
             /\ nextInc' = nextInc + 1
@@ -161,7 +186,7 @@ CLock(p) ==
                THEN LinWith(p, CHOOSE o \in cand : TRUE) ELSE KeepShadow
             /\ Goto(p, IF WriteBeforeUnlock THEN "c_write" ELSE "c_unlock")
        ELSE /\ sfile.st # "none"                     \* (nextInc > MaxInc: the model is exhausted, no step)
-            /\ tags' = tags \ {p}
+            /\ tags' = DropTag(p)
             /\ UNCHANGED <<sfile, nextInc, incc>>
             /\ FailWith(p, "AlreadyExists")
 
@@ -169,41 +194,41 @@ CWrite(p) ==
     /\ pc[p] = "c_write"
     /\ sfile' = [sfile EXCEPT !.c = loc[p].c]
     /\ Goto(p, IF WriteBeforeUnlock THEN "c_unlock" ELSE "c_res")
-    /\ UNCHANGED <<dyn, res, tags, nextInc, loc, incc, bad>> /\ KeepShadow
+    /\ UNCHANGED <<dyn, res, tags, nextInc, loc, incc, bad, nf, nc>> /\ KeepShadow
 
 CUnlock(p) ==
     /\ pc[p] = "c_unlock"
     /\ sfile' = [sfile EXCEPT !.st = "ready"]
     /\ Goto(p, IF WriteBeforeUnlock THEN "c_res" ELSE "c_write")
-    /\ UNCHANGED <<dyn, res, tags, nextInc, loc, incc, bad>> /\ KeepShadow
+    /\ UNCHANGED <<dyn, res, tags, nextInc, loc, incc, bad, nf, nc>> /\ KeepShadow
 
 CRes(p) ==
     /\ pc[p] = "c_res"
     /\ res' = [res EXCEPT ![loc[p].rid] = HasResources]
     /\ Goto(p, "c_dyn")
-    /\ UNCHANGED <<sfile, dyn, tags, nextInc, loc, incc, bad>> /\ KeepShadow
+    /\ UNCHANGED <<sfile, dyn, tags, nextInc, loc, incc, bad, nf, nc>> /\ KeepShadow
 
 CDyn(p) ==
     /\ pc[p] = "c_dyn"
     /\ dyn' = [dyn EXCEPT ![loc[p].rid] = [st |-> "init", reg |-> {}, locked |-> FALSE]]
     /\ Goto(p, IF RegisterInInit THEN "c_reg" ELSE "c_fin")
-    /\ UNCHANGED <<sfile, res, tags, nextInc, loc, incc, bad>> /\ KeepShadow
+    /\ UNCHANGED <<sfile, res, tags, nextInc, loc, incc, bad, nf, nc>> /\ KeepShadow
 
 CReg(p) ==
     /\ pc[p] = "c_reg"
-    /\ UNCHANGED <<sfile, res, tags, nextInc, incc>> /\ KeepShadow
+    /\ UNCHANGED <<sfile, res, tags, nextInc, incc, nf, nc>> /\ KeepShadow
     /\ IF dyn[loc[p].rid].locked
        THEN \* "This should never happen": the creator cannot register in its own service
             /\ bad' = TRUE /\ UNCHANGED <<dyn, loc>> /\ Goto(p, "ret")
        ELSE /\ dyn' = [dyn EXCEPT ![loc[p].rid].reg = @ \cup {p}]
-            /\ UNCHANGED <<loc, bad>>
+            /\ UNCHANGED <<loc, bad, nf, nc>>
             /\ Goto(p, IF RegisterInInit THEN "c_fin" ELSE "ret")
 
 CFin(p) ==
     /\ pc[p] = "c_fin"
     /\ dyn' = [dyn EXCEPT ![loc[p].rid].st = "ready"]
     /\ Goto(p, IF RegisterInInit THEN "ret" ELSE "c_reg")
-    /\ UNCHANGED <<sfile, res, tags, nextInc, loc, incc, bad>> /\ KeepShadow
+    /\ UNCHANGED <<sfile, res, tags, nextInc, loc, incc, bad, nf, nc>> /\ KeepShadow
 
 \* ---- open ----------------------------------------------------------------------------------------
 Wait(p) ==   \* one tick of the adaptive wait; HangsInCreation when the time is over
@@ -211,9 +236,14 @@ Wait(p) ==   \* one tick of the adaptive wait; HangsInCreation when the time is 
     THEN /\ loc' = [loc EXCEPT ![p].budget = @ - 1] /\ Goto(p, "o_avail") /\ KeepShadow
     ELSE FailWith(p, "HangsInCreation")
 
+\* the wait of the "dynamic config absent / not finalised" branch of open()
+DynWait(p) ==
+    IF BoundedDynWait THEN Wait(p)
+    ELSE /\ Goto(p, "o_avail") /\ UNCHANGED loc /\ KeepShadow       \* `continue` without looking at the clock
+
 OAvail(p) ==
     /\ pc[p] = "o_avail"
-    /\ UNCHANGED <<sfile, dyn, res, tags, nextInc, incc, bad>>
+    /\ UNCHANGED <<sfile, dyn, res, tags, nextInc, incc, bad, nf, nc>>
     /\ CASE sfile.st = "none"   -> FailWith(p, "DoesNotExist")
          [] sfile.st = "locked" -> Wait(p)
          [] sfile.st = "ready"  ->
@@ -229,27 +259,27 @@ OTag(p) ==
     /\ pc[p] = "o_tag"
     /\ tags' = tags \cup {p}
     /\ Goto(p, "o_res")
-    /\ UNCHANGED <<sfile, dyn, res, nextInc, loc, incc, bad>> /\ KeepShadow
+    /\ UNCHANGED <<sfile, dyn, res, nextInc, loc, incc, bad, nf, nc>> /\ KeepShadow
 
 ORes(p) ==
     /\ pc[p] = "o_res"
-    /\ UNCHANGED <<sfile, dyn, res, nextInc, incc, bad>>
+    /\ UNCHANGED <<sfile, dyn, res, nextInc, incc, bad, nf, nc>>
     /\ IF HasResources /\ ~res[loc[p].rid]
-       THEN tags' = tags \ {p} /\ FailWith(p, "ServiceInCorruptedState")
+       THEN tags' = DropTag(p) /\ FailWith(p, "ServiceInCorruptedState")
        ELSE tags' = tags /\ Goto(p, "o_dyn") /\ UNCHANGED loc /\ KeepShadow
 
 ODyn(p) ==
     /\ pc[p] = "o_dyn"
-    /\ UNCHANGED <<sfile, dyn, res, nextInc, incc, bad>>
+    /\ UNCHANGED <<sfile, dyn, res, nextInc, incc, bad, nf, nc>>
     /\ IF dyn[loc[p].rid].st = "ready"
        THEN tags' = tags /\ Goto(p, "o_reg") /\ UNCHANGED loc /\ KeepShadow
-       ELSE tags' = tags \ {p} /\ Wait(p)
+       ELSE tags' = DropTag(p) /\ DynWait(p)
 
 ORegister(p) ==
     /\ pc[p] = "o_reg"
-    /\ UNCHANGED <<sfile, res, nextInc, incc, bad>>
+    /\ UNCHANGED <<sfile, res, nextInc, incc, bad, nf, nc>>
     /\ IF dyn[loc[p].rid].locked
-       THEN /\ tags' = tags \ {p} /\ UNCHANGED dyn
+       THEN /\ tags' = DropTag(p) /\ UNCHANGED dyn
             /\ FailWith(p, "IsMarkedForDestruction")
        ELSE /\ dyn' = [dyn EXCEPT ![loc[p].rid].reg = @ \cup {p}]
             /\ tags' = tags
@@ -261,12 +291,12 @@ DTag(p) ==
     /\ pc[p] = "d_tag"
     /\ tags' = tags \ {p}
     /\ Goto(p, "d_dereg")
-    /\ UNCHANGED <<sfile, dyn, res, nextInc, loc, incc, bad>> /\ KeepShadow
+    /\ UNCHANGED <<sfile, dyn, res, nextInc, loc, incc, bad, nf, nc>> /\ KeepShadow
 
 \* deregister_node_id with ReleaseMode::LockIfLastIndex (one atomic step of the index set)
 DDereg(p) ==
     /\ pc[p] = "d_dereg"
-    /\ UNCHANGED <<sfile, res, tags, nextInc, incc, bad>>
+    /\ UNCHANGED <<sfile, res, tags, nextInc, incc, bad, nf, nc>>
     /\ LET i == loc[p].hid
            r2 == dyn[i].reg \ {p}
        IN IF r2 = {}
@@ -281,28 +311,97 @@ DDyn(p) ==
     /\ pc[p] = "d_dyn"
     /\ dyn' = [dyn EXCEPT ![loc[p].hid].st = "removed"]
     /\ Goto(p, "d_res")
-    /\ UNCHANGED <<sfile, res, tags, nextInc, loc, incc, bad>> /\ KeepShadow
+    /\ UNCHANGED <<sfile, res, tags, nextInc, loc, incc, bad, nf, nc>> /\ KeepShadow
 
 DRes(p) ==
     /\ pc[p] = "d_res"
     /\ res' = [res EXCEPT ![loc[p].hid] = FALSE]
-    /\ UNCHANGED <<sfile, dyn, tags, nextInc, loc, incc, bad>>
+    /\ UNCHANGED <<sfile, dyn, tags, nextInc, loc, incc, bad, nf, nc>>
     /\ Goto(p, "d_static") /\ KeepShadow
 
 \* the static config is removed BY NAME; with it the service is gone (linearization point)
 DStatic(p) ==
     /\ pc[p] = "d_static"
     /\ sfile' = [st |-> "none", id |-> 0, c |-> 0]
-    /\ UNCHANGED <<dyn, res, tags, nextInc, loc, incc, bad>>
+    /\ UNCHANGED <<dyn, res, tags, nextInc, loc, incc, bad, nf, nc>>
     /\ Decide(p, "Ok")
+
+\* ---- failing environment -------------------------------------------------------------------------------
+\* The system call of the current step of p fails; the call ends with a documented environment error after
+\* the code's error path has removed what the call still owns.
+EnvError(p) ==
+    /\ nf < MaxFaults /\ nf' = nf + 1 /\ nc' = nc
+    /\ bad' = bad /\ nextInc' = nextInc /\ incc' = incc
+    /\ loc' = [loc EXCEPT ![p].flt = 1, ![p].r = Prefix(p) \o "InternalFailure"]
+    \* a creation that was already visible (linearized at CLock) is withdrawn - like the drop of its handle
+    /\ IF pend[p].st = "done" THEN Withdraw(p) ELSE KeepShadow
+    /\ Goto(p, "ret")
+
+NoFile == [st |-> "none", id |-> 0, c |-> 0]
+
+\* create_service_tag fails: nothing exists yet
+CTagFail(p) ==
+    /\ pc[p] = "c_tag" /\ EnvError(p)
+    /\ UNCHANGED <<sfile, dyn, res, tags>>
+\* create_locked fails for another reason than AlreadyExists: the tag goes
+CLockFail(p) ==
+    /\ pc[p] = "c_lock" /\ sfile.st = "none" /\ EnvError(p)
+    /\ tags' = DropTag(p) /\ UNCHANGED <<sfile, dyn, res>>
+\* writing / unlocking fails: the locked static config is owned by the call and removed with it
+CUnlockFail(p) ==
+    /\ pc[p] \in {"c_write", "c_unlock"} /\ EnvError(p)
+    /\ sfile' = NoFile /\ tags' = DropTag(p) /\ UNCHANGED <<dyn, res>>
+\* creating the resources fails (after the static config was unlocked)
+CResFail(p) ==
+    /\ pc[p] = "c_res" /\ EnvError(p)
+    /\ sfile' = IF ReleaseStaticLate THEN NoFile ELSE sfile
+    /\ tags' = DropTag(p) /\ UNCHANGED <<dyn, res>>
+\* creating the dynamic config fails: resources, static config and tag are still owned
+CDynFail(p) ==
+    /\ pc[p] = "c_dyn" /\ EnvError(p)
+    /\ sfile' = IF ReleaseStaticLate THEN NoFile ELSE sfile
+    /\ res' = [res EXCEPT ![loc[p].rid] = FALSE]
+    /\ tags' = DropTag(p) /\ UNCHANGED dyn
+\* open: reading the static config / creating the tag / opening the resources / the dynamic config fails
+OAvailFail(p) ==
+    /\ pc[p] = "o_avail" /\ sfile.st = "ready" /\ EnvError(p)
+    /\ UNCHANGED <<sfile, dyn, res, tags>>
+OTagFail(p) ==
+    /\ pc[p] = "o_tag" /\ EnvError(p)
+    /\ UNCHANGED <<sfile, dyn, res, tags>>
+OResFail(p) ==
+    /\ pc[p] = "o_res" /\ EnvError(p)
+    /\ tags' = DropTag(p) /\ UNCHANGED <<sfile, dyn, res>>
+ODynFail(p) ==
+    /\ pc[p] = "o_dyn" /\ EnvError(p)
+    /\ tags' = DropTag(p) /\ UNCHANGED <<sfile, dyn, res>>
+
+EnvFail(p) == \/ CTagFail(p) \/ CLockFail(p) \/ CUnlockFail(p) \/ CResFail(p) \/ CDynFail(p)
+              \/ OAvailFail(p) \/ OTagFail(p) \/ OResFail(p) \/ ODynFail(p)
+
+\* ---- crash ----------------------------------------------------------------------------------------------
+\* the process dies wherever it is (also between two calls, holding a handle); nothing is cleaned up
+Crash_(p) ==
+    /\ nc < MaxCrashes /\ nc' = nc + 1 /\ nf' = nf
+    /\ pc[p] # "dead"
+    /\ pc[p] = "idle" => loc[p].hid # 0 \/ loc[p].ops < MaxOps      \* (a finished process without handle: nothing to see)
+    /\ Goto(p, "dead")
+    /\ Crash(p, p)
+    /\ UNCHANGED <<sfile, dyn, res, tags, nextInc, loc, incc, bad>>
 
 \* ---- return ---------------------------------------------------------------------------------------
 \* the settings the returned handle shows: those read from the static config (or written to it)
 SeenS(p) == IF loc[p].rc = 0 THEN LDflt ELSE NewS(loc[p].rc)
 
+\* The incarnation numbers of the model (nextInc) and of the property layer (gh.next) advance together (every
+\* successful CLock is a linearized creation), so "the handle belongs to the incarnation the call linearized
+\* with" is rid = pend.id; the id a real handle SHOWS is only known to the property layer in order of first
+\* appearance (a withdrawn creation never shows its id).
+ShownId == IF svc.lid = 0 THEN gh.seen + 1 ELSE svc.lid
+
 Return(p) ==
     /\ pc[p] = "ret"
-    /\ UNCHANGED <<sfile, dyn, res, tags, nextInc, incc>>
+    /\ UNCHANGED <<sfile, dyn, res, tags, nextInc, incc, nf, nc>>
     /\ LET a == loc[p].op
            r == loc[p].r
            isH == r = "Ok" /\ a # "drop"
@@ -310,14 +409,20 @@ Return(p) ==
                                 ![p].hc = IF isH THEN loc[p].rc ELSE IF a = "drop" THEN 0 ELSE @,
                                 ![p].op = "-", ![p].ph = "-"]
           /\ Goto(p, "idle")
-          /\ IF pend[p].st = "done"
-             THEN IF RetDoneGuard(p, a, r, loc[p].rid, SeenS(p), 0, Slot(p))
-                  THEN RetDone(p, a, r, loc[p].rid, SeenS(p), 0, Slot(p)) /\ bad' = bad
+          /\ IF pend[p].st = "withdrawn"
+             THEN IF RetEnvGuard(p, a, r, loc[p].flt)
+                  THEN RetEnv(p, a, r, loc[p].flt) /\ bad' = bad
+                  ELSE pend' = [pend EXCEPT ![p] = IdleRec] /\ UNCHANGED <<svc, ek, gh>> /\ bad' = TRUE
+             ELSE IF pend[p].st = "done"
+             THEN IF (isH => loc[p].rid = pend[p].id) /\ RetDoneGuard(p, a, r, ShownId, SeenS(p), 0, Slot(p))
+                  THEN RetDone(p, a, r, ShownId, SeenS(p), 0, Slot(p)) /\ bad' = bad
                   ELSE pend' = [pend EXCEPT ![p] = IdleRec] /\ UNCHANGED <<svc, ek, gh>> /\ bad' = TRUE
              ELSE IF Transient(a, r, 0, pend[p].ov)
                   THEN RetTransient(p, a, r, 0) /\ bad' = bad
                   ELSE IF KnownDeviationGuard(p, a, r)
                   THEN RetKnownDeviation(p, a, r) /\ bad' = bad
+                  ELSE IF RetEnvGuard(p, a, r, loc[p].flt)
+                  THEN RetEnv(p, a, r, loc[p].flt) /\ bad' = bad
                   ELSE pend' = [pend EXCEPT ![p] = IdleRec] /\ UNCHANGED <<svc, ek, gh>> /\ bad' = TRUE
 
 \* ---- behaviour -------------------------------------------------------------------------------------
@@ -327,11 +432,13 @@ Step(p) ==
     \/ OAvail(p) \/ OTag(p) \/ ORes(p) \/ ODyn(p) \/ ORegister(p)
     \/ DTag(p) \/ DDereg(p) \/ DDyn(p) \/ DRes(p) \/ DStatic(p)
     \/ Return(p)
+    \/ EnvFail(p)
 
-AllDone == \A p \in Threads : pc[p] = "idle" /\ loc[p].ops = MaxOps
+AllDone == \A p \in Threads : pc[p] = "dead" \/ (pc[p] = "idle" /\ loc[p].ops = MaxOps)
 Finished == AllDone /\ UNCHANGED lvars
 
-LNext == (\E p \in Threads : Step(p)) \/ Finished
+\* a crash is not a step the fairness condition may force
+LNext == (\E p \in Threads : Step(p) \/ Crash_(p)) \/ Finished
 LSpec == LInit /\ [][LNext]_lvars /\ WF_lvars(\E p \in Threads : Step(p))
 
 \* ---- checked ---------------------------------------------------------------------------------------
@@ -342,8 +449,11 @@ CreatorStates == {"c_write", "c_unlock", "c_res", "c_dyn", "c_reg", "c_fin"}
 TeardownStates == {"d_dyn", "d_res", "d_static"}
 DropStates == {"d_tag", "d_dereg"} \cup TeardownStates
 
-Holding(p) == \/ loc[p].hid # 0 /\ pc[p] \notin DropStates /\ ~(pc[p] = "ret" /\ loc[p].op = "drop")
-              \/ pc[p] = "ret" /\ loc[p].r = "Ok" /\ loc[p].op \in {"create", "open", "ooc"}
+Alive(p) == pc[p] # "dead"
+Dead == {p \in Threads : pc[p] = "dead"}
+Holding(p) == /\ Alive(p)
+              /\ \/ loc[p].hid # 0 /\ pc[p] \notin DropStates /\ ~(pc[p] = "ret" /\ loc[p].op = "drop")
+                 \/ pc[p] = "ret" /\ loc[p].r = "Ok" /\ loc[p].op \in {"create", "open", "ooc"}
 HeldInc(p) == IF loc[p].hid # 0 THEN loc[p].hid ELSE loc[p].rid
 HeldCfg(p) == IF loc[p].hid # 0 THEN loc[p].hc ELSE loc[p].rc
 
@@ -367,10 +477,14 @@ ImplOpenSeesCreatorSettings ==
 ResourcesExist == sfile.st # "none" \/ \E i \in 1..MaxInc : dyn[i].st \in {"init", "ready"} \/ res[i]
 Busy == \E p \in Threads : Holding(p) \/ pc[p] \in CreatorStates \cup DropStates
                            \/ (pc[p] = "ret" /\ loc[p].op \in {"drop", "create", "ooc"})
-ImplLifetimeFollowsUsers == ResourcesExist => Busy
-\* ... and in quiescent states exactly then
+ImplLifetimeFollowsUsers == ResourcesExist => Busy \/ Dead # {}
+\* ... and in quiescent states exactly then (what a dead process leaves is the subject of C04)
 ImplQuiescentExact ==
     (\A p \in Threads : pc[p] = "idle") => (ResourcesExist <=> \E p \in Threads : loc[p].hid # 0)
+\* "leaves the service untouched", "nothing left": in quiescent states a node carries a service tag exactly if it
+\* holds a handle - whatever failed or was refused before
+ImplTagsFollowHandles ==
+    (\A p \in Threads : pc[p] \in {"idle", "dead"}) => tags \ Dead = {p \in Threads \ Dead : loc[p].hid # 0}
 
 \* every call returns (liveness under weak fairness, retry budget instead of time)
 Termination == <>[]AllDone
